@@ -193,7 +193,11 @@ Inner(x, y, z) ==
         Arr(<<Item(x), Hole>>), Arr(<<Spread(x), Item(y)>>), Arr(<<Item(x), Spread(y)>>),
         Arr(<<Spread(x)>>),
         Obj(<<>>), Obj(<<Named("p", x)>>), Obj(<<Short(x.n)>>), Obj(<<Named("p", x), Named("q", y)>>),
-        Obj(<<Spread(x), Named("p", y)>>), Obj(<<Named("p", x), Spread(y)>>), Obj(<<Spread(x)>>)}
+        Obj(<<Spread(x), Named("p", y)>>), Obj(<<Named("p", x), Spread(y)>>), Obj(<<Spread(x)>>),
+        (* three members: a spread between two fields, a field between two spreads, holes next to spreads and at the end *)
+        Obj(<<Named("p", x), Spread(y), Named("q", z)>>), Obj(<<Spread(x), Named("p", y), Spread(z)>>),
+        Arr(<<Item(x), Spread(y), Item(z)>>), Arr(<<Spread(x), Item(y), Spread(z)>>), Arr(<<Item(x), Hole, Spread(y)>>),
+        Arr(<<Item(x), Item(y), Hole>>), Arr(<<Spread(x), Hole, Item(y)>>), Arr(<<Item(x), Hole, Hole>>)}
 
 (* every one-operator context around a hole h, other operands fresh leaves u, v *)
 Outer(h, u, v) ==
